@@ -1387,4 +1387,18 @@ theorem interrupted_run_finishes {s0 : State} {σ : Nat → State} {es : Nat →
   exact finished_or_progress (hinv i).obj (hinv i).role (hinv i).launch (hinv i).range
     (by rw [run_nodes hrun i]; exact hac) hal (hinv i).clean
 
+
+theorem reach_liveInv {g : List NodeInfo} {s : State} (h : Reach g s) (hc : CleanInv s) :
+    LiveInv s :=
+  ⟨reach_objsInv h, reach_roleInv h, reach_launchInv h, reach_forkRange h, hc⟩
+
+theorem reachFull_liveInv {g : List NodeInfo} {s : State} (h : ReachFull g s) (hc : CleanInv s) :
+    LiveInv s :=
+  ⟨reachFull_objsInv h, reachFull_roleInv h, reachFull_launchInv h, reachFull_forkRange h, hc⟩
+
+theorem reachFull_nodes {g : List NodeInfo} {s : State} (h : ReachFull g s) : s.nodes = g := by
+  induction h with
+  | init => rfl
+  | step _ _ ih => rw [apply_nodes]; exact ih
+
 end Martian.Sched
